@@ -44,6 +44,12 @@ func send(w io.Writer, packet *parser.Packet) error {
 }
 
 func nextPacket(r io.Reader) (*parser.Packet, error) {
+	return nextPacketWithLimit(r, 0)
+}
+
+// If limit is greater than 0, a packet whose announced length
+// exceeds the limit is rejected before its payload is read.
+func nextPacketWithLimit(r io.Reader, limit int64) (*parser.Packet, error) {
 	var firstByte [1]byte
 	_, err := io.ReadFull(r, firstByte[:])
 	if err != nil {
@@ -97,6 +103,9 @@ func nextPacket(r io.Reader) (*parser.Packet, error) {
 			expectedLen = int(n)
 			state = ReadPayload
 		case ReadPayload:
+			if limit > 0 && int64(expectedLen) > limit {
+				return nil, ErrLimitReached
+			}
 			return parser.DecodeWithLen(r, isBinary, expectedLen)
 		}
 	}
